@@ -28,6 +28,8 @@ import (
 const rtPath = "github.com/gardenbed/emerge/verif/rt"
 
 type stats struct {
+	Concurrency  int      `json:"concurrency_operations"`
+	Unowned      []string `json:"unowned_concurrency"`
 	MapRanges    int      `json:"map_ranges"`
 	GlobalPoints int      `json:"global_points"`
 	Files        int      `json:"files"`
@@ -63,7 +65,7 @@ func main() {
 	}
 	sb, _ := json.MarshalIndent(st, "", " ")
 	must(os.WriteFile(filepath.Join(*out, "stats.json"), sb, 0o644))
-	fmt.Printf("instr: %d map ranges, %d global points, %d files rewritten, %d skipped\n", st.MapRanges, st.GlobalPoints, st.Files, len(st.Skipped))
+	fmt.Printf("instr: %d map ranges, %d global points, %d concurrency operations handed to the scheduler (%d not owned), %d files rewritten, %d skipped\n", st.MapRanges, st.GlobalPoints, st.Concurrency, len(st.Unowned), st.Files, len(st.Skipped))
 }
 
 func must(err error) {
@@ -149,10 +151,24 @@ func instrumentModule(root, outRoot string, globals, viaOverlay bool, st *stats,
 			}
 			rel, _ := filepath.Rel(root, path)
 			changed := rewriteFile(pkg, file, rel, globals, st)
+			if viaOverlay && rewriteConcurrency(pkg, file, rel, st) {
+				changed = true
+			}
 			if !changed {
 				continue
 			}
-			astutil.AddNamedImport(pkg.Fset, file, "verifrt", rtPath)
+			usesRT := false
+			ast.Inspect(file, func(n ast.Node) bool {
+				if sel, ok := n.(*ast.SelectorExpr); ok {
+					if id, ok := sel.X.(*ast.Ident); ok && id.Name == "verifrt" {
+						usesRT = true
+					}
+				}
+				return !usesRT
+			})
+			if usesRT {
+				astutil.AddNamedImport(pkg.Fset, file, "verifrt", rtPath)
+			}
 			var buf bytes.Buffer
 			if err := format.Node(&buf, pkg.Fset, file); err != nil {
 				fail("print %s: %v", path, err)
@@ -166,6 +182,111 @@ func instrumentModule(root, outRoot string, globals, viaOverlay bool, st *stats,
 			}
 		}
 	}
+}
+
+func rtCall(name string, args ...ast.Expr) *ast.CallExpr {
+	return &ast.CallExpr{Fun: &ast.SelectorExpr{X: ast.NewIdent("verifrt"), Sel: ast.NewIdent(name)}, Args: args}
+}
+
+// rewriteConcurrency hands the concurrency of the code under test to the cooperative scheduler of rt: `go f(x)` becomes
+// verifrt.Go (arguments evaluated at the statement, as the language prescribes), channel sends and receives outside
+// select statements become verifrt.Send / Recv / Recv2, and package sync is replaced by rt/vsync. What cannot be owned
+// (select statements, range over a channel) is listed in the statistics.
+func rewriteConcurrency(pkg *packages.Package, file *ast.File, rel string, st *stats) bool {
+	changed := false
+	fset := pkg.Fset
+	site := func(n ast.Node) string { return fmt.Sprintf("%s:%d", rel, fset.Position(n.Pos()).Line) }
+	for _, im := range file.Imports {
+		if im.Path.Value == `"sync"` {
+			im.Path.Value = fmt.Sprintf("%q", rtPath+"/vsync")
+			if im.Name == nil {
+				im.Name = ast.NewIdent("sync")
+			}
+			changed = true
+			st.Concurrency++
+		}
+	}
+	tmp := 0
+	skip := map[ast.Node]bool{}
+	astutil.Apply(file, func(c *astutil.Cursor) bool {
+		if c.Node() != nil && skip[c.Node()] {
+			return false
+		}
+		switch n := c.Node().(type) {
+		case *ast.SelectStmt:
+			st.Unowned = append(st.Unowned, "select at "+site(n))
+		case *ast.RangeStmt:
+			if t := pkg.TypesInfo.TypeOf(n.X); t != nil {
+				if _, ok := t.Underlying().(*types.Chan); ok {
+					st.Unowned = append(st.Unowned, "range over a channel at "+site(n))
+				}
+			}
+		case *ast.CommClause:
+			// the communication of a select case stays a real operation: do not descend into it
+			if n.Comm != nil {
+				skip[n.Comm] = true
+			}
+		}
+		return true
+	}, func(c *astutil.Cursor) bool {
+		switch n := c.Node().(type) {
+		case *ast.GoStmt:
+			var pre []ast.Stmt
+			call := n.Call
+			if lit, ok := call.Fun.(*ast.FuncLit); !ok || len(call.Args) > 0 {
+				_ = lit
+				// evaluate the arguments now, run the call later
+				args := make([]ast.Expr, len(call.Args))
+				for i, a := range call.Args {
+					tmp++
+					name := fmt.Sprintf("verifArg%d", tmp)
+					pre = append(pre, &ast.AssignStmt{Lhs: []ast.Expr{ast.NewIdent(name)}, Tok: token.DEFINE, Rhs: []ast.Expr{a}})
+					args[i] = ast.NewIdent(name)
+				}
+				ell := call.Ellipsis
+				call = &ast.CallExpr{Fun: call.Fun, Args: args, Ellipsis: ell}
+			}
+			body := &ast.FuncLit{Type: &ast.FuncType{Params: &ast.FieldList{}}, Body: &ast.BlockStmt{List: []ast.Stmt{&ast.ExprStmt{X: call}}}}
+			spawn := &ast.ExprStmt{X: rtCall("Go", body)}
+			if len(pre) == 0 {
+				c.Replace(spawn)
+			} else {
+				c.Replace(&ast.BlockStmt{List: append(pre, spawn)})
+			}
+			changed = true
+			st.Concurrency++
+		case *ast.SendStmt:
+			c.Replace(&ast.ExprStmt{X: rtCall("Send", n.Chan, n.Value)})
+			changed = true
+			st.Concurrency++
+		case *ast.UnaryExpr:
+			if n.Op != token.ARROW {
+				return true
+			}
+			// a receive that is the communication of a select case stays as it is
+			switch p := c.Parent().(type) {
+			case *ast.AssignStmt:
+				if len(p.Lhs) == 2 && len(p.Rhs) == 1 {
+					c.Replace(rtCall("Recv2", n.X))
+					changed = true
+					st.Concurrency++
+					return true
+				}
+			case *ast.ValueSpec:
+				if len(p.Names) == 2 && len(p.Values) == 1 {
+					c.Replace(rtCall("Recv2", n.X))
+					changed = true
+					st.Concurrency++
+					return true
+				}
+			}
+			c.Replace(rtCall("Recv", n.X))
+			changed = true
+			st.Concurrency++
+		}
+		return true
+	})
+	return changed
 }
 
 func rewriteFile(pkg *packages.Package, file *ast.File, rel string, globals bool, st *stats) bool {
